@@ -128,6 +128,11 @@ func EncodeWithColor(content string, interleaved bool, color barcode.ColorScheme
 		}
 	}
 
+	if lastRune != nil {
+		// a rune without partner is left over: the byte length was even but the rune count is odd
+		return nil, fmt.Errorf("can not encode \"%s\"", content)
+	}
+
 	resBits.AddBit(mode.end...)
 
 	if interleaved {
